@@ -53,9 +53,10 @@ static void decode_hist(long idx, int *ops, int *n)
 }
 
 #define NTWOH 2
+#define NDLC 2
 static long c01_nconfigs(int tier)
 {
-  return (long) NENDINGS * 3 + (long) NREP * nhist(tier ? 4 : 3) + NTWOH;
+  return (long) NENDINGS * 3 + (long) NREP * nhist(tier ? 4 : 3) + NTWOH + NDLC;
 }
 
 enum { CL_STATUS_EXACT, CL_STATUS_STABLE, CL_NO_SYSCALL_AFTER, CL_REAPED_ONCE, CL_ENDED_IN_BLOCK, CL_FAULT_SURFACED, CL_HANG_OK, CL_TIMEOUT_SEEN };
@@ -173,11 +174,50 @@ static void c01_two_handles(int k)
   if (vk_double_closes || vk_foreign_closes) vk_violation("C05", "no-double-close", "h_c01|two-handles", "%d double and %d foreign close(s)", vk_double_closes, vk_foreign_closes);
 }
 
+/* a handle with a deadline that has passed: the status, once it exists, is what every wait and stop returns - also the until-deadline ones */
+static void c01_deadline(int k)
+{
+  memset(&vk_cfg, 0, sizeof vk_cfg);
+  vk_cfg.sched_on = 1;
+  vk_cfg.sched_bound = 1;
+  vk_cfg.vlimit = 32;
+  vk_cfg.hello_lite = 1;
+  hx_desc("h_c01|deadline-passed|%s", k ? "status-returned-before" : "child-ended,not-yet-waited-for");
+  hx_begin();
+  vk_set_hang_hook(c01_hang);
+  first_status = -1;
+  reproc_options o;
+  memset(&o, 0, sizeof o);
+  o.deadline = 2;
+  vk_script("X7");
+  P = hx_new();
+  vk_cfg.sched_on = 0;
+  int r = hx_start(P, hx_helper_argv(), o);
+  vk_cfg.sched_on = 1;
+  if (r < 0 || vk_nchildren != 1) vk_finish(OUT_INFRA, "start failed: %d", r);
+  CH = &vk_children[0];
+  for (int g = 0; g < 8 && CH->state == CH_RUNNING && vk_child_enabled(CH); g++) vk_child_step(CH);
+  if (k) { r = hx_wait(P, REPROC_INFINITE); check_status_result("wait(INFINITE)", r, hx_last_api); }
+  vk_advance(5);
+  r = hx_wait(P, REPROC_DEADLINE);
+  check_status_result("wait(DEADLINE) after the deadline", r, hx_last_api);
+  if (r != 7) vk_violation("C01", "status-exact", "h_c01|deadline-passed", "wait(DEADLINE) after the deadline returned %s, the child has exited with 7", hx_errname(r));
+  reproc_stop_actions a = { { REPROC_STOP_WAIT, REPROC_DEADLINE }, { REPROC_STOP_NOOP, 0 }, { REPROC_STOP_NOOP, 0 } };
+  r = hx_stop(P, a);
+  check_status_result("stop{wait DEADLINE} after the deadline", r, hx_last_api);
+  r = hx_wait(P, 0);
+  check_status_result("wait(0)", r, hx_last_api);
+  hx_destroy(P);
+  if (CH->reaps != 1) vk_violation("C01", "reaped-once", "h_c01|deadline-passed", "the child was reaped %d times", CH->reaps);
+  else vk_hit(CL_REAPED_ONCE);
+}
+
 static void c01_run(int tier, long cfg)
 {
   struct ending en;
   int ops[4], nops = 0;
   long na = (long) NENDINGS * 3;
+  if (cfg >= na + (long) NREP * nhist(tier ? 4 : 3) + NTWOH) { c01_deadline((int) (cfg - na - (long) NREP * nhist(tier ? 4 : 3) - NTWOH)); return; }
   if (cfg >= na + (long) NREP * nhist(tier ? 4 : 3)) { c01_two_handles((int) (cfg - na - (long) NREP * nhist(tier ? 4 : 3))); return; }
   if (cfg < na) {
     en = ending_of((int) (cfg / 3));
